@@ -2940,6 +2940,12 @@ static void AssembleFile_InitPass(void) {
     InitPass();
     AsmLabelPassInit();
 
+    /* every pass reads the source from the top with the default number bases: a RADIX
+       or OUTRADIX further down must not hold for the lines in front of it in the next pass */
+
+    RadixBase    = 10;
+    OutRadixBase = 16;
+
     ActPC      = SegCode;
     PCs[ActPC] = 0;
     RelSegs    = False;
